@@ -157,7 +157,7 @@ class Ctx:
             with open(cfgpath, "w") as f:
                 f.write(txt)
         meta = os.path.join(cwd, "meta-%d" % int(time.time() * 1000 % 1e9))
-        java = ["java", "-XX:+UseParallelGC", "-Xss64m"]
+        java = ["java", "-XX:+UseParallelGC", "-XX:ParallelGCThreads=4", "-Xss64m"]
         if heap:
             java.append("-Xmx%s" % heap)
         if dfs:
